@@ -324,6 +324,7 @@ class Lower:
             return f"({self.prop(a, t)} {'∧' if op == '&&' else '∨'} {self.prop(b, u)})", "prop"
         a, t = self.ex(le, env, ops); b, u = self.ex(re_, env, ops)
         if op in ("%", "/") and t == "int" and u == "two64": return f"({'fmod64' if op == '%' else 'fdiv64'} {a})", "int"
+        if op in ("/", "%") and t == "nat" and u == "nat" and re_[0] == "num" and re_[1] != 0: return f"({a} {op} {b})", "nat"      # division by a non-zero literal
         if op in ("+", "-", "*") and t == "nat" and u == "nat":
             fn = {'+': 'ckAdd', '-': 'ckSub', '*': 'ckMul'}[op]
             v = self.tmp(); ops.append(f"let {v} ← {fn} {a} {b}"); return v, "nat"
